@@ -110,7 +110,23 @@ func c19ServerOption(name string) int {
 	if m == nil {
 		return 0
 	}
-	tv, err := types.Eval(token.NewFileSet(), nil, token.NoPos, string(m[1]))
+	// the argument may be a constant of the same file: its defining expression is put in its place
+	expr := string(m[1])
+	for depth := 0; depth < 8; depth++ {
+		changed := false
+		expr = regexp.MustCompile(`[A-Za-z_][A-Za-z0-9_]*`).ReplaceAllStringFunc(expr, func(id string) string {
+			d := regexp.MustCompile(`(?m)^\s*(?:const\s+)?` + id + `\s*(?:[A-Za-z0-9_.]+\s*)?=\s*([^/\n]+)`).FindSubmatch(src)
+			if d == nil {
+				return id
+			}
+			changed = true
+			return "(" + strings.TrimSpace(string(d[1])) + ")"
+		})
+		if !changed {
+			break
+		}
+	}
+	tv, err := types.Eval(token.NewFileSet(), nil, token.NoPos, expr)
 	if err != nil || tv.Value == nil {
 		return 0
 	}
